@@ -827,7 +827,7 @@ func (r *Ring) Exec(t []string) string {
 			}
 			return "found:" + idOrNil(v)
 		})
-	case "reqjoin":
+	case "reqjoin", "reqjoinfault": // reqjoinfault: the harness has armed a fault on the joiner's Import
 		return withTimeout(opTimeout, func() string {
 			p, s, err := r.Wrap(u(1)).RequestToJoin(r.Wrap(u(2)))
 			if err != nil {
